@@ -308,12 +308,15 @@ fn scan_chunk(coords: Coordinates, days: &[i64]) -> ScanStats {
         if f.local != f.wall {
             s.local_not_wall += 1;
         }
-        if f.noon.2 != RuleKind::Open {
+        // the consequence is about local dates of the supported range: at the very first day the noon
+        // or midnight instant can fall on 1899-12-31 local (zones west of UTC), where everything is closed
+        let first_day = NaiveDate::from_ymd_opt(1900, 1, 1).unwrap();
+        if f.noon.0 >= first_day && f.noon.2 != RuleKind::Open {
             hit(2);
             s.noon_not_open += 1;
             s.noon_not_open_cc += cc as u64;
         }
-        if f.midnight.2 != RuleKind::Closed {
+        if f.midnight.0 >= first_day && f.midnight.2 != RuleKind::Closed {
             hit(3);
             s.midnight_not_closed += 1;
             s.midnight_not_closed_cc += cc as u64;
